@@ -97,6 +97,14 @@ check("C04", "only complete, well-formed manifests accepted; refusals change not
       "DESIGN.md §3 C04",
       [R("^TestC04$", 1500, 60000, steps=30)])
 
+check("C07", "referrers responses list exactly the manifests with that subject", "exploration",
+      "rapid state machine vs model set {m present : subject(m)=S}; field-exact descriptors; filter header; Link chains; page limits; restart",
+      "Randomised model-based search over artifact histories (push by tag/digest, re-push, tag overwrite, delete by tag/digest, subject delete, restart) on both stores with response "
+      "limits from one descriptor to unlimited; every listing (plain, filtered, repeated so that the page cache answers) is followed along its Link chain and compared field by field.",
+      "Trusted: the model; page-size arithmetic re-computed with encoding/json over the same field set. Collections run under a retain-everything policy (GC effects on listings are C05/C06).",
+      "DESIGN.md §3 C07",
+      [R("^TestC07$", 4000, 150000, steps=30)])
+
 NOT_APPLICABLE = {}
 
 # --------------------------------------------------------------------------- helpers
